@@ -42,7 +42,7 @@ def texts(alpha, maxlen, minlen=0):
 
 def container_index(params):
     for i, k in enumerate(params):
-        if k in ("ZL", "XL", "TL", "BL", "T", "KL", "YL"):
+        if k in ("ZL", "XL", "TL", "BL", "T", "KL", "YL", "ZN", "KN"):
             return i
     return None
 
@@ -53,6 +53,8 @@ def grid(fn, quick, rng):
     g = fn.get("grid")
     ci = container_index(ps)
     out = []
+    if g == "deep":
+        return [(list(l),) for l in CTX.get("deep_lists", [])]
     if g == "sort":
         mx = 7 if quick else 9
         vals = D.WERTE[:3] if ps[0] == "ZL" else D.KWERTE[:3]
@@ -221,6 +223,82 @@ ELEM_PARAM = {"Hinzufügen_Liste": [1], "Einfügen_Liste": [2], "Voranstellen_Li
 
 
 # ------------------------------------------------------------------------------------------------
+# deep-stack lists for the explicit work stack of Sortierung.ddp
+# ------------------------------------------------------------------------------------------------
+def deep_stack_list(n):
+    """A permutation of 0..n-1 on which the iterative quicksort of Sortierung.ddp (pivot = median of first/middle/last,
+    right part handled first, left part left on the stack) keeps about n/3 ranges pending: the algorithm is run on
+    unassigned cells ("gas", larger than every assigned value) and at every level the ranks are handed out so that the
+    pivot becomes the third smallest element of the range: two elements stay behind as a pending left range.
+    The depth actually reached is measured afterwards with the extracted Coq transcription (Quicksort_Tiefe)."""
+    rank = [None] * n
+    a = list(range(n))            # a[pos - 1] = cell
+    nxt = [0]
+
+    def give(c):
+        if rank[c] is None:
+            rank[c] = nxt[0]
+            nxt[0] += 1
+
+    def less(x, y):               # value of cell x < value of cell y
+        rx, ry = rank[x], rank[y]
+        if rx is None and ry is None:
+            raise RuntimeError("gas/gas comparison")
+        if rx is None:
+            return False
+        if ry is None:
+            return True
+        return rx < ry
+
+    def sort2(i, j):
+        if less(a[j - 1], a[i - 1]):
+            a[i - 1], a[j - 1] = a[j - 1], a[i - 1]
+
+    stack = [(1, n)]
+    while stack:
+        li, re = stack.pop()
+        if re <= li:
+            i = li
+        else:
+            m = re - li + 1
+            cells = [a[k - 1] for k in range(li, re + 1)]
+            if m >= 7 and all(rank[c] is None for c in cells):
+                mi = li + m // 2
+                give(a[li]); give(a[li - 1]); give(a[mi - 1])      # the pending left range [second smallest, smallest] is out of order; then the pivot; a[re] stays gas
+            else:
+                for c in cells:
+                    give(c)
+            if m == 2:
+                sort2(li, re)
+                i = li
+            else:
+                mi = li + m // 2
+                sort2(li, re); sort2(li, mi); sort2(mi, re)
+                if m == 3:
+                    i = mi
+                else:
+                    a[mi - 1], a[re - 1] = a[re - 1], a[mi - 1]
+                    piv = a[re - 1]
+                    i, j = li - 1, re
+                    while True:
+                        i += 1
+                        while less(a[i - 1], piv):
+                            i += 1
+                        j -= 1
+                        while j >= li and less(piv, a[j - 1]):
+                            j -= 1
+                        if i >= j:
+                            break
+                        a[i - 1], a[j - 1] = a[j - 1], a[i - 1]
+                    a[i - 1], a[re - 1] = a[re - 1], a[i - 1]
+        if i - 1 > li:
+            stack.append((li, i - 1))
+        if i + 1 < re:
+            stack.append((i + 1, re))
+    return rank
+
+
+# ------------------------------------------------------------------------------------------------
 # shapes (canonical, coarse description of the argument shape: part of every violation key)
 # ------------------------------------------------------------------------------------------------
 def rel(i, n):
@@ -257,7 +335,7 @@ def shape(fn, args):
             parts.append("zero" if a == 0 else ("neg" if a < 0 else "pos") + ("-int" if a % 4 == 0 else "-frac"))
         elif k == "Z":
             parts.append("neg" if a < 0 else "zero" if a == 0 else "pos")
-        elif k in ("T", "ZL", "XL", "TL", "BL", "KL", "YL"):
+        elif k in ("T", "ZL", "XL", "TL", "BL", "KL", "YL", "ZN", "KN"):
             parts.append("m" + sz(len(a)))
         else:
             parts.append(k.lower())
@@ -335,7 +413,7 @@ def expected_fields(fn, sp):
 
 def norm_obs(fn, fields):
     kinds = [fn["res"]] + list(fn["params"])
-    return [D.norm_field(k, s) if k in ("K", "KL") else s for k, s in zip(kinds, fields)] + fields[len(kinds):]
+    return [D.norm_field(k, s) if k in ("K", "KL", "KN") else s for k, s in zip(kinds, fields)] + fields[len(kinds):]
 
 
 def judge(fn, sp, ob):
@@ -365,7 +443,7 @@ def m_enc(kind, v):
         return "z:%d" % v
     if kind in ("T", "B"):
         return "l:" + ",".join(str(ord(c)) for c in v)
-    if kind in ("ZL", "KL", "YL"):
+    if kind in ("ZL", "KL", "YL", "ZN", "KN"):
         return "l:" + ",".join(str(x) for x in v)
     if kind == "XL":
         return "l:" + ",".join(str(D.TEXTE.index(x)) for x in v)
@@ -396,9 +474,9 @@ def m_dec(kind, s):
         return "<" + D.esc("".join(chr(c) for c in ints)) + ">"
     if kind == "X":
         return "<" + D.TEXTE[ints[0]] + ">"
-    if kind in ("ZL", "YL"):
+    if kind in ("ZL", "YL", "ZN"):
         return "[" + "".join("%d," % x for x in ints) + "]"
-    if kind == "KL":
+    if kind in ("KL", "KN"):
         return "[" + "".join(D.kfmt(x / 4) + ";" for x in ints) + "]"
     if kind == "XL":
         return "[" + "".join("<%s>," % D.TEXTE[x] for x in ints) + "]"
@@ -673,7 +751,7 @@ def main():
             ck.broken_obligation("harness/c/c17shim.c does not compile", p.stderr)
             ck.finish()
         os.replace(shim + ".tmp%d" % os.getpid(), shim)
-    O2_FNS = ("Einfügen_Liste", "Lösche_Bereich", "Spalte", "Text_Index_Von_Text", "Trim", "Hinzufügen_Liste@Text", "Quicksort_Ref", "Quicksort", "Liste_Spiegeln")
+    O2_FNS = ("Quicksort_Ref@tief", "Quicksort@tief", "Quicksort@Kommazahl_tief", "Einfügen_Liste", "Lösche_Bereich", "Spalte", "Text_Index_Von_Text", "Trim", "Hinzufügen_Liste@Text", "Quicksort_Ref", "Quicksort", "Liste_Spiegeln")
     # one driver program per group of functions (a kddp run costs ~2.5 CPU seconds, mostly for the Duden imports)
     groups = {}
     for fn in S.FNS:
@@ -722,7 +800,16 @@ def main():
     by_fn = {}
     for (fn, forms, o, base, nr) in progs:
         by_fn.setdefault(fn["id"], []).append((forms, o, base, nr))
-    CTX.update(b=b, quick=ck.quick, seed=ck.seed, only=only, corpus=corpus, model=model, have_model=have_model, by_fn=by_fn)
+    deep_sizes = [170, 230] if ck.quick else [170, 230, 300, 400]
+    deep_lists = [deep_stack_list(n) for n in deep_sizes]
+    deep_info = []
+    if have_model:
+        mp = subprocess.run([model], input="".join("Quicksort_Tiefe l:%s\n" % ",".join(map(str, l)) for l in deep_lists), capture_output=True, text=True, timeout=300)
+        for n, o in zip(deep_sizes, mp.stdout.split("\n")):
+            deep_info.append(dict(elements=n, max_pending_ranges=int(o[2:]) if o.startswith("z:") else None))
+        if any(d["max_pending_ranges"] is None or d["max_pending_ranges"] <= 50 for d in deep_info):
+            ck.broken_obligation("the deep-stack lists no longer keep more than 50 ranges pending on quicksort's work stack (pivot rule changed?): %s" % deep_info, "")
+    CTX.update(b=b, quick=ck.quick, seed=ck.seed, only=only, corpus=corpus, model=model, have_model=have_model, by_fn=by_fn, deep_lists=deep_lists)
     order = sorted(range(len(S.FNS)), key=lambda i: -len(S.FNS[i]["params"]) * 10 - len(S.FNS[i]["names"]))
     order = [i for i in order if S.FNS[i]["id"] in by_fn]
     import multiprocessing
@@ -784,6 +871,8 @@ def main():
     uncovered = {mod: [n for n in names if n not in reached] for mod, names in all_public.items()}
     ck.cov.update(dict(
         violation_keys=sorted(best)[:400],
+        deep_stack=dict(note="adversarial lists for the 3-median pivot rule; depth = largest number of ranges simultaneously on the explicit work stack, measured with the extracted Coq transcription (Quicksort_Tiefe); the Duden's stack holds 50 ranges before it has to grow; run through Quicksort_Ref (both aliases), Quicksort (Zahl, value and expression form) and Quicksort at Kommazahl, -O0 and -O2",
+                        lists=deep_info),
         model_mismatches=[dict(function=m[0], form=m[1], opt=m[2], args=m[3], model=str(m[4]), executable=str(m[5])) for m in model_mismatch],
         programs=len(jobs), process_spawns=spawns, functions_exercised=len(reached), function_entries=len(S.FNS),
         specified_cases=n_spec, unspecified_cases_model_only=n_unspec, expected_laufzeitfehler=n_err_expected,
